@@ -500,6 +500,40 @@ impl World {
         let snaps = self.spy.take_snaps();
         if !self.check_screen {
             self.user_lines_total += ctx.user_lines;
+            // fault-injection runs: the logical state must follow the model after EVERY operation (damage done
+            // in the middle of a history may be papered over by a later finish or reset)
+            let mut bad = None;
+            for b in self.bars.iter().flatten() {
+                if let Some(h) = b.handles.first() {
+                    let r = catch_unwind(AssertUnwindSafe(|| (h.position(), h.length(), h.is_finished())));
+                    match r {
+                        Err(p) => {
+                            bad = Some(("getter-panics-after-io-error", format!("a getter of B{} panicked after {}: {}", b.m.id, op.name(), panic_message(&p))));
+                        }
+                        Ok((p, l, f)) => {
+                            if p != b.m.pos || l != b.m.len || f != b.m.finished() {
+                                bad = Some((
+                                    "state-corrupted-by-io-error",
+                                    format!(
+                                        "after {} (op {i}) B{} has position {p} / length {l:?} / finished {f}; without the failure: {} / {:?} / {}",
+                                        op.name(),
+                                        b.m.id,
+                                        b.m.pos,
+                                        b.m.len,
+                                        b.m.finished()
+                                    ),
+                                ));
+                            }
+                        }
+                    }
+                }
+                if bad.is_some() {
+                    break;
+                }
+            }
+            if let Some((rule, d)) = bad {
+                self.set_fail(rule, d, i);
+            }
             return;
         }
         let flushed = self.spy.flushes() - flushes_before;
